@@ -1,6 +1,7 @@
 package interpreter
 
 import (
+	"encoding/json"
 	"fmt"
 	"math/big"
 
@@ -43,8 +44,9 @@ func (v Portion) MarshalJSON() ([]byte, error) {
 }
 
 func (v Monetary) MarshalJSON() ([]byte, error) {
-	m := fmt.Sprintf("\"%s %s\"", v.Asset, v.Amount.String())
-	return []byte(m), nil
+	// the asset is free text when it comes from a variable: let encoding/json
+	// quote it, so that a quote or a backslash in it is escaped
+	return json.Marshal(fmt.Sprintf("%s %s", v.Asset, v.Amount.String()))
 }
 
 func (v String) String() string {
